@@ -296,6 +296,17 @@ def record_eml(seed):
         for x in (def2, multi):
             ds.add_child(x)
             w.track_tree(x)
+        # ... and a references node that sits INSIDE the element it names (two levels down)
+        if seed % 2:
+            def3 = Node("associatedParty")
+            def3.add_attribute("id", "holds-a-reference-to-itself")
+            def3.add_child(Node("organizationName", content="o3"))
+            ad = Node("address")
+            ad.add_child(Node("references", content="holds-a-reference-to-itself"))
+            def3.add_child(ad)
+            def3.add_child(Node("role", content="r3"))
+            ds.add_child(def3)
+            w.track_tree(def3)
         tr["events"].append({"op": "resync", "args": [], "ok": True, "ret": 0, "post": slim(w.pi(all_fields()))})
     try:
         references.expand(root)
